@@ -127,6 +127,31 @@ Print Assumptions C09_add_switch.
 Print Assumptions C09_add_unvalidated.
 Print Assumptions C09_switch_last.
 
+(* ---- "valid" means: accepted by validate() called with its default arguments.  The real validate has a parameter `recursive`;
+   a build-time call site consults validate_at_site v default arg.  Instance obligation build_time_validate_is_default_validate:
+   both sites pass nothing or the default literal.  Then what the factory hands back with validation on passes the plain validate(). *)
+Section C09_default.
+Variable F : Type.
+Variable F_of_dec : dec -> F.
+Variable setup_nml_cell : obj F -> obj F.
+Variable msf : string -> list mspec.
+Variable T : tables.
+Theorem C09_valid_default : forall (v : bool -> obj F -> bool) default arg c kw o w,
+  site_agrees default arg = true ->
+  component_factory_with F F_of_dec (validate_at_site v default arg) setup_nml_cell (msf c) T true true c kw = (Ret o, w) ->
+  v default o = true.
+Proof.
+  intros v default arg c kw o w A H. rewrite (validate_at_site_default v default arg A) in H.
+  exact (proj1 (factory_valid F F_of_dec setup_nml_cell (v default) (msf c) T c kw o w H)).
+Qed.
+End C09_default.
+Print Assumptions C09_valid_default.
+
+Theorem C09_build_time_validate_is_default_validate :
+  build_time_rec_agreesb Gen_Members.validate_default_recursive Gen_Members.validate_sites = true.
+Proof. exact Inst_C09.build_time_validate_is_default_validate. Qed.
+Print Assumptions C09_build_time_validate_is_default_validate.
+
 (* ---- the switch across threads.  The model's switch is ONE cell for the whole process (Super.sess_run carries one boolean).
    Instance obligation switch_is_plain_global: ENABLED is a bool literal assigned to a module-level name of a module that contains
    nothing else, and the helpers assign/read that attribute: a cell shared by all threads.  The correspondence run records, after
